@@ -1783,23 +1783,128 @@ def string_pieces(fv, t, _depth=0):
         return [("lit", t[2][1])]
     if h == "call" and t[1].endswith("String::new") and len(t) == 2:
         return []
+    if h == "call" and t[1].endswith("String::with_capacity") and len(t) == 3:
+        return []                          # the capacity is a hint: an empty string
     if h == "local":
         b = fv.binds.get(t[2])
         if b is not None and b["val"][0] == "node" and b["val"][1] is not None:
             ps = string_pieces(fv, fv.term(b["val"][1]), _depth + 1)
             # appends through &mut self methods, in source order
+            decl = next((x for x in fv.nodes if x.get("k") == "let" and x.get("pat", {}).get("k") == "pbind"
+                         and x["pat"].get("id") == t[2]), None)
+            outer_loops = set(id(a) for a in fv.ancestors(decl)) if decl is not None else set()
+            done_loops = set()
             for n in fv.nodes:
                 if n.get("k") == "mcall" and n["recv"].get("k") == "local" and n["recv"].get("id") == t[2]:
                     m = cname(n).split("::")[-1]
+                    lp = next((a for a in fv.ancestors(n) if a.get("k") == "for" and id(a) not in outer_loops), None)
+                    if lp is not None and m in ("push_str", "push"):
+                        # the string is extended inside a loop that starts after its declaration: `for v in X { if not
+                        # first { s.push_str(D) } s.push_str(&format!(F, v)) }` is X.map(|v| format!(F, v)).join(D)
+                        if id(lp) in done_loops:
+                            continue
+                        done_loops.add(id(lp))
+                        jp = _loop_join_piece(fv, t, lp)
+                        if jp is None:
+                            return [("term", t)]
+                        ps = ps + [jp]
+                        continue
                     if m == "push_str":
                         ps = ps + string_pieces(fv, fv.term(n["args"][0]), _depth + 1)
                     elif m == "push":
                         a = fv.term(n["args"][0])
                         ps = ps + ([("lit", a[1])] if a[0] == "lit" and isinstance(a[1], str) else [("term", a)])
+                    elif m == "clear" and (_unconditional_in_body(fv, n) or _clear_scopes_rest(fv, n, t[2])):
+                        ps = []            # a buffer reused per iteration: the value is what follows the clear
+                        done_loops.clear()
                     elif m in ("clear", "truncate", "insert", "insert_str", "pop", "remove"):
                         return [("term", t)]
             return _merge_lits(ps)
     return [("term", t)]
+
+
+def _unconditional_in_body(fv, n):
+    """n is a statement of a loop body / closure body / function body block (not nested in a branch)"""
+    p = fv.parent.get(id(n))
+    if p is not None and p.get("k") == "semi":
+        p = fv.parent.get(id(p))
+    if p is None or p.get("k") != "block":
+        return False
+    q = fv.parent.get(id(p))
+    return q is None or q.get("k") in ("loop", "for", "while", "closure") or p is fv.body
+
+
+def _clear_scopes_rest(fv, n, lid):
+    """every later extension of the local happens inside the block whose statement the clear is: within that block
+    the string is what follows the clear"""
+    p = fv.parent.get(id(n))
+    if p is not None and p.get("k") == "semi":
+        p = fv.parent.get(id(p))
+    if p is None or p.get("k") != "block":
+        return False
+    seen = False
+    for x in fv.nodes:
+        if x is n:
+            seen = True
+            continue
+        if seen and x.get("k") == "mcall" and x["recv"].get("k") == "local" and x["recv"].get("id") == lid \
+                and cname(x).split("::")[-1] in ("push", "push_str", "clear", "truncate", "insert", "insert_str", "pop", "remove"):
+            if not any(a is p for a in fv.ancestors(x)):
+                return False
+    return seen
+
+
+def _loop_join_piece(fv, loc, lp):
+    lid = loc[2]
+    pushes = [x for x in walk(lp["body"]) if x.get("k") == "mcall" and x["recv"].get("k") == "local"
+              and x["recv"].get("id") == lid]
+    if any(cname(x).split("::")[-1] not in ("push_str", "push", "is_empty", "len", "reserve", "capacity") for x in pushes):
+        return None
+    pushes = [x for x in pushes if cname(x).split("::")[-1] in ("push_str", "push")]
+    it = fv.term(lp["iter"])
+    item = ("item", it)
+    src, elem_v, idx_v = it, item, None
+    if it[0] == "call" and it[1].endswith("Iterator::enumerate") and len(it) == 3:
+        src, elem_v, idx_v = it[2], ("proj", 1, item), ("proj", 0, item)
+    sep, elems = [], []
+    for x in pushes:
+        gs = [(fv.term(g), pol) for g, pol in fv.guards_within(x, lp)]
+        if not gs:
+            elems.append(x)
+            continue
+        if len(gs) == 1:
+            g, pol = gs[0]
+            not_first = (pol and idx_v is not None and g == mk_bin("<", ("lit", 0), idx_v)) or \
+                (not pol and idx_v is not None and g == mk_bin("==", idx_v, ("lit", 0))) or \
+                (not pol and g[0] == "call" and g[1].endswith("::is_empty") and len(g) == 3 and g[2] == loc)
+            if not_first:
+                sep.append(x)
+                continue
+            continue                     # guarded by something else: judged below (a two-way choice of the element)
+        return None
+    def pushed(x):
+        a = fv.term(x["args"][0])
+        return a
+    sel = None
+    if not elems and len(sep) <= 1:
+        # the element is written by one of two pushes chosen by a condition: `if c { push A } else { push B }`
+        rest = [x for x in pushes if x not in sep]
+        gl = [[(fv.term(g), pol) for g, pol in fv.guards_within(x, lp)] for x in rest]
+        if len(rest) == 2 and all(len(g) == 1 for g in gl) and gl[0][0][0] == gl[1][0][0] and gl[0][0][1] != gl[1][0][1]:
+            a_, b_ = (rest[0], rest[1]) if gl[0][0][1] else (rest[1], rest[0])
+            sel = ("if", gl[0][0][0], pushed(a_), pushed(b_))
+            elems = [a_]
+    if len(elems) != 1 or len(sep) > 1:
+        return None
+    order = {id(x): i for i, x in enumerate(walk(lp["body"]))}
+    if sep and order[id(sep[0])] > order[id(elems[0])]:
+        return None                      # separator after the element would be a trailing one
+    d = pushed(sep[0]) if sep else ("lit", "")
+    e = subst(sel if sel is not None else pushed(elems[0]), {elem_v: ("cparam", 0)})
+    if contains(e, lambda s_: s_ == item or s_ == loc):
+        return None
+    mapped = ("call", "core::iter::Iterator::collect", ("call", "core::iter::Iterator::map", src, ("closure", e)))
+    return ("term", ("call", "alloc::slice::join", mapped, d))
 
 
 def _is_stringy(t):
